@@ -30,7 +30,7 @@ TRUSTED = [
     'axioms printed by Print Assumptions: the standard-library real-number axioms (ClassicalDedekindReals.sig_not_dec, '
     'sig_forall_dec, functional_extensionality_dep) and Classical_Prop.classic (Coquelicot)',
     'Section hypothesis (premise of the Gaussian theorems): erf is differentiable with derivative 2/sqrt(pi) exp(-x^2)',
-    'translator/py2coq.py: per-element reading of the numpy formulas of flux_model.py / math.py (69 kernels of G_flux.v, '
+    'translator/py2coq.py: per-element reading of the numpy formulas of flux_model.py / math.py (71 kernels of G_flux.v, '
     'each pinned by one K_ lemma)',
     'hand model M_Flux.v of class dispatch, setter / set_params plumbing, constructors, deepcopy as allocation in an '
     'explicit store; validated by this correspondence',
@@ -915,6 +915,10 @@ def corpus_cases():
         # 3a4f2c1: sigma_t setter must move the support window
         {'objs': [['GA', 0, 10.0, 2.0, 0.5]], 'ops': [['SA', 0, 'sigma_t', 3.0]],
          'obs': [['ST', 0], ['TC', 0, -1, 13.0], ['TI', 0, -1, 8.0, 12.0], ['GP', 0, 'sigma_t']]},
+        # 0a1ba7d: Gaussian get_integral is clipped to the support window (intervals across / outside / covering it)
+        {'objs': [['GA', 0, 10.0, 2.0, 0.5]], 'ops': [],
+         'obs': [['ST', 0], ['TI', 0, -1, 0.0, 20.0], ['TI', 0, -1, 20.0, 30.0], ['TI', 0, -1, 9.0, 30.0],
+                 ['TI', 0, -1, -5.0, 9.5], ['TI', 0, -1, 9.0, 11.0], ['TI', 0, 1, 0.0, 1.0]]},
         # 8f69f79: Ecut / alpha / beta are parameters
         {'objs': [['CO', 0, 1.0, 2.0, 10.0], ['LP', 0, 1.0, 2.0, 0.1]],
          'ops': [['SP', 0, [['Ecut', 5.0]]], ['SP', 1, [['alpha', 3.0], ['beta', 0.2]]]],
@@ -973,7 +977,7 @@ def run(ctx):
         cases.append(gen_case(ctx, rng, malformed=True))
     while len(cases) < n:
         cases.append(gen_case(ctx, rng))
-    for c in cases[3:6]:
+    for c in cases[4:7]:
         ctx.sample({'objs': c['objs'], 'ops': c['ops'], 'n_obs': len(c['obs'])})
     run_cases(ctx, cases, exe)
 
